@@ -882,7 +882,13 @@ class Step(Node):
             "UPDATE step SET need = ?, shell = ?, _holding = 0 WHERE node = ?",
             (need.value, int(shell), self.i),
         )
-        if self.get_state() == StepState.FAILED:
+        state = self.get_state()
+        if state == StepState.FAILED or (
+            state == StepState.SUCCEEDED and self.get_hash() is None
+        ):
+            # A SUCCEEDED step without a stored hash lost a product while it was detached
+            # (see `after_lost_product`): it must run again to recreate what was deleted,
+            # and being SUCCEEDED it would otherwise never be dispatched.
             self.graph.mark_step_pending(self)
         self.set_resources(resources)
         self.set_env_overrides(env_overrides)
